@@ -50,7 +50,10 @@ def gen(rng, stratified=True, allow_cycles=True, max_consts=3, extremes=0.08, n_
         n = 0
         for args in itertools.product(consts, repeat=ar):
             if ar == 0 or rng.random() < (0.7 if ar < 2 else 0.45):
-                clauses.append(["fact", prob(), L(name, args)])
+                if rng.random() < 0.1:
+                    clauses.append(["rule", None, L(name, args), []])     # a certain fact among the probabilistic ones
+                else:
+                    clauses.append(["fact", prob(), L(name, args)])
                 n += 1
                 if rng.random() < 0.12:  # duplicate fact for the same atom (noisy-or)
                     clauses.append(["fact", prob(), L(name, args)])
@@ -294,7 +297,10 @@ def gen_graph(rng, stratified=True, n_evidence=None):
     rng.shuffle(edges)
     ne = rng.randint(n, min(len(edges), n + 3))
     for a, b in edges[:ne]:
-        clauses.append(["fact", rng.choice(PAL), L("f0", [a, b])])
+        if rng.random() < 0.15:
+            clauses.append(["rule", None, L("f0", [a, b]), []])          # a certain edge
+        else:
+            clauses.append(["fact", rng.choice(PAL), L("f0", [a, b])])
     for c in consts:
         if rng.random() < 0.5:
             clauses.append(["fact", rng.choice(PAL), L("f1", [c])])
